@@ -143,7 +143,9 @@ NewVolume ==
   /\ \E style \in (IF Mode = "exhaustive" THEN {"chain", "run"} ELSE {"chain", "run", "run2"}),
         n \in (IF Mode = "exhaustive" THEN {1} ELSE {1, 2}),
         vt \in (IF Mode = "exhaustive" THEN {1} ELSE {1, 3}),
-        blanks \in ({0} \cup (IF S >= 48 THEN {(S \div 24) - 1} ELSE {})) :
+        blanks \in ({0} \cup (IF S >= 48 THEN {(S \div 24) - 1} ELSE {})),
+        keepfree \in BOOLEAN :          \* the sector right behind a reserved run stays free (never allocated later)
+       /\ (keepfree => style # "chain")
        /\ n = 1 => blanks = 0            \* blank entries push real entries across the sector boundary of a 2-sector table
        /\ LET cands == IF style = "chain" THEN ChainCandidates(CurPart, n)
                        ELSE IF RunStart(CurPart) + n <= NSect THEN {[k \in 1..n |-> RunStart(CurPart) + k - 1]} ELSE {}
@@ -151,7 +153,7 @@ NewVolume ==
                img' = [img EXCEPT !.parts[CurP].vols = Append(@,
                           [name |-> VolNames[Len(CurPart.vols) + 1], vtype |-> vt, dir |-> d, dirstyle |-> style,
                            blanks |-> blanks, files |-> <<>>]),
-                        !.parts[CurP].spacers = @]
+                        !.parts[CurP].spacers = IF keepfree /\ d[Len(d)] + 1 < NSect THEN @ \cup {d[Len(d)] + 1} ELSE @]
   /\ UNCHANGED <<done, goal>>
 
 FileNames == <<"S1", "KICK 2", "PAD#3", "X4">>
